@@ -429,6 +429,7 @@ func mutate(t *rapid.T, s string) string {
 func TestC04(t *testing.T) {
 	ev := newEv(t, "C04")
 	ev.replayTier(t)
+	_ = ev.quirk("unbounded_recursion_stack_overflow") // open finding D42: prints its KNOWN-FINDING line while the probe reproduces it
 	record := func(class string, c ParseCase, f parseFacts) {
 		in := c.bytes()
 		// non-trivial: accepted, or a rejection that is not the empty input
